@@ -18,8 +18,9 @@ from mc.lib import pest, simdata
 ID = 'C19'
 LEVEL = 'exploration'
 RULE = (
-    'File sets: 3 datasets (different numbers of rise and recession levels) '
-    'x 8 parameter files (spline with 4..7 Sy knots and 2..5 K knots, knots '
+    'File sets: 5 datasets (different numbers of rise and recession levels) '
+    'x 9 parameter files (thorough: all 49 same-type pairs of '
+    'specific-yield and transmissivity sets; spline with 4..7 Sy knots and 2..5 K knots, knots '
     'with 7-10 significant digits, a spline whose overshoot makes the '
     'simulated recession non-monotone, two PEATCLSM sets) x {rise, curves}: the real `spowtd pestfiles ... '
     'tpl|ins|pst` and `spowtd simulate rise|recession [--observations]` are '
@@ -31,12 +32,18 @@ RULE = (
     'instruction file applied to the concatenated --observations output '
     'yields exactly the printed floats; the filled template loads to the '
     'original parameter dict.  Float-format alphabet: one representative of '
-    'every (sign, number of significant digits 1..17, decimal exponent from '
-    '-300 to 300) class is pushed through the real simulate ... '
+    'every (sign, number of significant digits 1..17, decimal exponent: 18 '
+    'values from -300 to 300, thorough: every exponent from -307 to 308) class is pushed through the real simulate ... '
     '--observations writer (the computed array is substituted) and '
     'extracted with the generated instruction file.  Non-trivial = every '
     'file set; every format batch.')
 ASSUMPTIONS = [
+    'a parameter file uses one parameterisation for both functions (the '
+    'statement says "both parameterisations"); files that mix a spline '
+    'specific yield with a PEATCLSM transmissivity or vice versa are '
+    'outside it (pestfiles chooses the control-file layout from the '
+    'specific-yield type alone and fails or disagrees with its own '
+    'template on such files)',
     'PEST semantics as in the PEST manual: primary marker @text@ = first '
     'following line containing text; l1 = advance one line; [name]c1:c2 = '
     'read columns c1..c2 (1-based, inclusive); names are case-insensitive',
@@ -60,17 +67,34 @@ def decoy():
     decoy_mod.functions()
 
 
+def param_pairs(tier):
+    """quick: 9 chosen pairs; thorough: every (Sy set, T set) pair of one
+    parameterisation (spline with spline, PEATCLSM with PEATCLSM)"""
+    if tier == 'quick':
+        return list(PARAMS)
+    pairs = [(a, b) for a in simdata.SPLINE_SY if a != 'descending'
+             for b in simdata.SPLINE_T]
+    pairs += [(a, b) for a in simdata.PEATCLSM_SY
+              for b in simdata.PEATCLSM_T]
+    return list(PARAMS) + [p for p in pairs if p not in PARAMS]
+
+
+def exponents(tier):
+    return EXPONENTS if tier == 'quick' else list(range(-307, 309))
+
+
 def BOUND(tier):
-    return ('4 datasets x 8 parameter files x {rise, curves}; %d float '
+    return ('%d datasets x %d parameter files x {rise, curves}; %d float '
             'format classes x {rise, recession} writers'
-            % (2 * 17 * len(EXPONENTS)))
+            % (len(simdata.WORDS), len(param_pairs(tier)),
+               2 * 17 * len(exponents(tier))))
 
 
-def alphabet():
+def alphabet(tier='quick'):
     out = []
     for sign in ('', '-'):
         for digits in range(1, 18):
-            for e in EXPONENTS:
+            for e in exponents(tier):
                 m = MANT[:digits]
                 text = sign + m[0] + ('.' + m[1:] if digits > 1 else '') \
                     + 'e%d' % e
@@ -79,12 +103,13 @@ def alphabet():
 
 
 def spaces(tier):
+    pairs = param_pairs(tier)
     files = list(itertools.product(range(len(simdata.WORDS)),
-                                   range(len(PARAMS)), ('rise', 'curves')))
+                                   range(len(pairs)), ('rise', 'curves')))
 
     def decode(i):
         which, p, sub = files[i]
-        return {'kind': 'files', 'dataset': which, 'params': list(PARAMS[p]),
+        return {'kind': 'files', 'dataset': which, 'params': list(pairs[p]),
                 'subtask': sub}
     crafted = list(itertools.product(range(len(CRAFTED)), (0, 4),
                                      ('rise', 'curves')))
@@ -99,7 +124,7 @@ def spaces(tier):
         which, p = libseq[i]
         return {'kind': 'library', 'dataset': which,
                 'params': list(PARAMS[p])}
-    values = alphabet()
+    values = alphabet(tier)
     batch = 4
     nb = -(-len(values) // batch)
     fm = list(itertools.product(('rise', 'recession'), range(nb)))
